@@ -629,6 +629,7 @@ Builder::~Builder() {
 }
 
 void Builder::Cleanup() {
+  VERIF_EVENT("CleanupBegin", nullptr, "");
   if (command_runner_.get()) {
     vector<Edge*> active_edges = command_runner_->GetActiveEdges();
     command_runner_->Abort();
